@@ -150,7 +150,11 @@ def run_translator(ck):
            "Definition RM := Eval vm_compute in routes_eqb gen_routes routes_model.\nPrint RM.\n"
            "Definition RU := Eval vm_compute in map rt_handler (filter (fun r => negb (table_unambiguous (rt_parsers r))) gen_routes).\nPrint RU.\n"
            "Definition RP := Eval vm_compute in map snd (filter (fun p => negb (is_some (find_route gen_routes (snd p)))) gen_paths).\nPrint RP.\n"
-           "Definition NP := Eval vm_compute in Z.of_nat (List.length gen_paths).\nPrint NP.\n")
+           "Definition NP := Eval vm_compute in Z.of_nat (List.length gen_paths).\nPrint NP.\n"
+           "Definition US := Eval vm_compute in unaccounted_sites gen_handler_side_sites.\nPrint US.\n"
+           "Definition UF := Eval vm_compute in filter (fun x => negb (existsb (String.eqb x) handler_side_functions_model)) gen_handler_side_functions.\nPrint UF.\n"
+           "Definition FS := Eval vm_compute in map rt_handler (filter (fun r => negb (first_pre_is_service r)) gen_routes).\nPrint FS.\n"
+           "Definition NSI := Eval vm_compute in Z.of_nat (List.length gen_handler_side_sites).\nPrint NSI.\n")
     ok, out = ck.coq_make(["model/IngestRobust.vo", "model/IngestPipe.vo", "gen/GenGoroutinesWriter.vo"])
     if not ok:
         ck.obligation("generated file compiles", False, out[-1500:])
@@ -196,6 +200,12 @@ def run_translator(ck):
     ck.obligation("Content-Type dispatch over the parser map cannot depend on map iteration order (no key is a prefix of another)",
                   val("RU") == "[]", "ambiguous tables: " + val("RU"))
     ck.obligation("every path registered in router/*.go with a request pipeline has a modelled route", val("RP") == "[]", "paths without route: " + val("RP"))
+    ck.obligation("every index / slice / type assertion that runs on the handler goroutine (outside tamePanic) is allow-listed with its reason",
+                  val("US") == "[]", "unaccounted sites (file, function, kind, expression): " + val("US"))
+    ck.obligation("only setters, resets and constructors of package unmarshal run on the handler goroutine", val("UF") == "[]",
+                  "functions newly reachable outside the parser goroutine: " + val("UF"))
+    ck.obligation("every route looks up its insert services before anything else", val("FS") == "[]", "routes: " + val("FS"))
+    ck.extra["handler_side_panic_sites"] = val("NSI")
     ck.extra["goroutines_in_writer"] = val("NG")
     ck.extra["ingest_paths_in_router"] = val("NP")
     ck.extra["untyped_error_sites"] = val("NS")
